@@ -186,3 +186,49 @@ def derive(rng, s, keep_channels=False, min_events=0):
             s = s.view()
             tags.append('view')
     return s, '+'.join(tags) or 'fresh'
+
+
+def bystander(F, rng, s, nops=None):
+    """Library operations applied to ``s`` itself or to a relative of it (copy, slice, view, astype), results discarded.
+    None of them is documented to change its input, so every later question asked of ``s`` must get the answer a fresh
+    load gives: the history clauses run this between their queries.  -> tag."""
+    tags = []
+    for _ in range(int(rng.integers(1, 4)) if nops is None else nops):
+        N, D = s.shape
+        rel = int(rng.integers(6))
+        t = [s, s.copy(), s[:, :], s[::2] if N >= 2 else s[:], s.view(), s.astype(float)][rel]
+        rname = ['self', 'copy', 'slice', 'stride', 'view', 'astype'][rel]
+        chs = [int(x) for x in rng.permutation(D)[:int(rng.integers(1, D + 1))]]
+        chn = [t.channels[c] if rng.random() < 0.5 else c for c in chs]
+        op = int(rng.integers(7))
+        try:
+            if op == 0:
+                F.transform.to_rfi(t, chn if rng.random() < 0.7 else None)
+                oname = 'to_rfi'
+            elif op == 1:
+                crv = [make_curve(1.0 + 0.05 * i, 2.0 + i) for i in range(len(chs))]
+                F.transform.to_mef(t, chn if rng.random() < 0.7 else None, crv, chn)
+                oname = 'to_mef'
+            elif op == 2:
+                F.transform.transform(t, chn, lambda x: x * 3.0 + 7.0)
+                oname = 'transform'
+            elif op == 3:
+                F.gate.high_low(t, chn)
+                oname = 'high_low'
+            elif op == 4:
+                t.hist_bins(chn, None if max(r[1] for r in t.range(chs)) <= 5000 else 32,
+                            str(rng.choice(['linear', 'log', 'logicle'])))
+                oname = 'hist_bins'
+            elif op == 5:
+                F.stats.mean(t, chn)
+                F.stats.median(t, chn)
+                oname = 'stats'
+            else:
+                if D >= 2 and N >= 1:
+                    F.gate.density2d(t, [0, D - 1], gate_fraction=0.5, xscale=str(rng.choice(['linear', 'log', 'logicle'])),
+                                     yscale=str(rng.choice(['linear', 'log', 'logicle'])), bins=16)
+                oname = 'density2d'
+        except Exception as e:   # noqa  (what the operation answers is another property's business)
+            oname = 'raised'
+        tags.append(rname + '.' + oname)
+    return '+'.join(tags)
